@@ -194,6 +194,17 @@ def run_case(case):
         d = loose_diff(node, back, "", getattr(rec, "numeric_tags", ()))
         if d:
             out.fail("recv", "recv:%s:%s" % (rec.name, d[0]), {"diff": d[1], "entity_class": type(ent).__name__})
+            return out
+        # an entity is not used up by serialising it: a second serialisation (a layer forwards it, the application sends it on)
+        # gives the same stanza
+        try:
+            again = ent.toProtocolTreeNode()
+        except Exception as e:
+            out.fail("recv", "recv:%s:second_serialisation_raises:%s" % (rec.name, type(e).__name__), {"error": repr(e)[:300]})
+            return out
+        d = loose_diff(node, again, "", getattr(rec, "numeric_tags", ()))
+        if d:
+            out.fail("recv", "recv:%s:second_serialisation:%s" % (rec.name, d[0]), {"diff": d[1], "entity_class": type(ent).__name__})
         return out
     if case["sub"] == "send":
         args = [S.unjson_val(a) for a in case["args"]]
